@@ -133,6 +133,23 @@ impl BufferedBody {
     }
 }
 
+#[cfg(pavex_verif)]
+impl BufferedBody {
+    #[doc(hidden)]
+    /// Verification hook: exposes the size-limited buffering routine for an arbitrary body.
+    pub async fn verif_extract_with_limit<B>(
+        request_head: &RequestHead,
+        body: B,
+        max_size: ByteUnit,
+    ) -> Result<Self, ExtractBufferedBodyError>
+    where
+        B: hyper::body::Body,
+        B::Error: Into<Box<dyn std::error::Error + Send + Sync>>,
+    {
+        Self::_extract_with_limit(request_head, body, max_size).await
+    }
+}
+
 impl From<BufferedBody> for Bytes {
     fn from(buffered_body: BufferedBody) -> Self {
         buffered_body.bytes
